@@ -61,6 +61,20 @@ def _key_and_detail(cx, o, rec):
         p = ph["probes"][d["k"] - 1] if "k" in d else {}
         return ({"part": "edit", "clause": clause, "sym": sym, "op": ph["op"] if d.get("phase", 1) == 1 else o["op"] + "+modify", "spelling": d.get("spelling", ""), "warm": bool(d.get("warm", False)), "text": p.get("text", "")},
                 {"base_value": p.get("bv"), "current_definition_implies": p.get("want"), "eu": p.get("eu"), "to_symbol": p.get("tosym"), "via_si": p.get("via"), "exc": p.get("exc"), "warm_before_edit": o["w"]})
+    if o["kind"] == "sys":
+        d = rec["detail"] if isinstance(rec["detail"], dict) else {}
+        sym = data["table"][o["t"] - 1]["sym"]
+        key = {"part": "system", "clause": clause, "system": data["systems"][o["s"] - 1]["name"], "source": o.get("text", ""), "edited": sym, "op": o["op"], "form": ""}
+        detail = {"registry_created_with_unit_system": bool(o["ctor"]), "tlc": d}
+        if "form" in d and 1 <= d["form"] <= len(o["forms"]):
+            f = o["forms"][d["form"] - 1]
+            key["form"] = f["form"]
+            detail.update(returned_unit=f.get("runit"), base_value=f.get("bv"), product_of_constituents_in_registry=f.get("want"), value=f.get("val"), same=f.get("same"), back=f.get("back"), exc=f.get("exc"))
+        if "n" in d:
+            a = [x for x in o["anch"] if x["n"] == d["n"]]
+            key["form"] = "Unit(" + data["names"][d["n"] - 1]["name"] + ")"
+            detail.update(base_value=a[0].get("bv") if a else None, current_definition_implies=a[0].get("want") if a else None)
+        return key, detail
     if o["kind"] == "ord":
         sym = data["table"][o["t"] - 1]["sym"]
         j = rec["detail"].get("step", 1) if isinstance(rec["detail"], dict) else 1
@@ -277,7 +291,28 @@ def run(ck):
             raise MachineryFailure("too few edit cases")
         return out
 
-    jobs = {"all": gen_all, "more": gen_more, "edit": gen_edit, "expr3": gen_expr3, "exprsim": gen_exprsim,
+    def gen_sys():
+        mod = ck.q(3, 1)
+        cfg = _cfg(ck, "MC_C02_sys", "MC_C02_sys_run", {"Mod": mod, "Sel": ck.seed % mod})
+        r = ck.tlc("MC_C02_sys", cfg, env={ENV: cx.path}, workers=1, timeout=3000, coverage=False,
+                   label=f"reductions to a named unit system inside an edited registry: system x source (base units, products, electromagnetic atoms) x edited symbol x edit (1 of {mod}); every call form")
+        out = []
+        for x in r.by_tag("SYS"):
+            c = dict(x)
+            c.pop("tag")
+            c["kind"] = "sys"
+            c["sname"] = data["systems"][x["s"] - 1]["name"]
+            c["sym"] = data["table"][x["t"] - 1]["sym"]
+            c["names"] = {str(n): data["names"][n - 1]["name"] for n in set(x["pool"]) | {a[0] for a in x["src"]}}
+            c["first"] = (x["t"] + x["s"] + len(x["src"]) + x["src"][0][0]) % len(x["forms"])
+            out.append(c)
+        if len(out) < 100:
+            raise MachineryFailure("too few unit-system cases")
+        if len({c["s"] for c in out}) != len(data["systems"]):
+            raise MachineryFailure("a unit system has no case")
+        return out
+
+    jobs = {"all": gen_all, "sys": gen_sys, "more": gen_more, "edit": gen_edit, "expr3": gen_expr3, "exprsim": gen_exprsim,
             "reg": gen_reg("MC_C02_reg_t" if thorough else "MC_C02_reg", "user registries: histories <= 3 calls (define_unit tuple/quantity, add, modify) over 2 registries x unit systems, one witness per state"),
             "regqux": gen_reg("MC_C02_reg_qux", "user registries: symbol qux defined over user symbol foo, then foo modified; histories <= 3")}
     if thorough:
@@ -343,6 +378,10 @@ def run(ck):
     counts["edit_cases"] = len(done["edit"])
     counts["edited_symbols"] = len({c["t"] for c in done["edit"]})
     cases += done["edit"]
+    counts["unit_system_cases"] = len(done["sys"])
+    counts["unit_system_edited_symbols"] = len({c["t"] for c in done["sys"]})
+    counts["unit_system_call_forms"] = sum(len(c["forms"]) for c in done["sys"])
+    cases += done["sys"]
 
     # ---- user registries
     rcases = []
@@ -375,6 +414,7 @@ def run(ck):
     nontrivial = nontrivial_reg + sum(1 for c, o in byk["name"] if o["ok"]) + sum(1 for c, o in byk["pfx"] if o["ok"]) + sum(1 for c, o in byk["conv"] if o["ok"] and c["n1"] != c["n2"])
     nontrivial += sum(1 for c, o in byk["edit"] if o["phases"] and o["phases"][0]["ok"])
     nontrivial += sum(1 for c, o in byk["ord"] if all(st["ok"] for st in o["steps"])) + sum(1 for c, o in byk["pow"] if o["ok"])
+    nontrivial += sum(1 for c, o in byk["sys"] if o["edit_ok"] and any(f["ok"] for f in o["forms"]))
     eo = byk["expr"]
     counts["expressions_accepted_string"] = sum(1 for c, o in eo if o["s"]["ok"])
     counts["expressions_accepted_arith"] = sum(1 for c, o in eo if o["a"]["ok"])
